@@ -72,12 +72,13 @@ def Tree.depth (comb : List Key) : Tree → Nat
   | .inner l r => if r.depth comb = 0 then 0 else l.depth comb
 
 /-- Left-nested outer product of the present trees (`[a, b, c]` → `a b * c *`). -/
-def outerAll (ts : List OTree) : OTree :=
-  ts.foldl (init := none) fun acc t =>
-    match acc, t with
-    | none, t => t
-    | acc, none => acc
-    | some a, some b => some (.outer a b)
+def outerStep (acc t : OTree) : OTree :=
+  match acc, t with
+  | none, t => t
+  | acc, none => acc
+  | some a, some b => some (.outer a b)
+
+def outerAll (ts : List OTree) : OTree := ts.foldl outerStep none
 
 /-- `State.splits` on a tree of fields: flat index tuples (row-major; `.` zips and checks the shapes) and the key list. -/
 def Tree.enum (size : Key → Nat) : Tree → M (List (List Nat) × List Key)
@@ -231,15 +232,13 @@ structure St where
 
 abbrev Sts := List (Name × Option St)
 
-def Sts.get (sts : Sts) (n : Name) : M (Option St) :=
+/-- The state object of node `n` (`none`: the node has no state, or — never for driver-checked input — is unknown). -/
+def Sts.get (sts : Sts) (n : Name) : Option St :=
   match sts with
-  | [] => .error (.malformed "unknown-node")
-  | (m, s) :: r => if m = n then .ok s else Sts.get r n
+  | [] => none
+  | (m, s) :: r => if m = n then s else Sts.get r n
 
-def Sts.getSt (sts : Sts) (n : Name) : M St := do
-  match ← sts.get n with
-  | some s => return s
-  | none => throw (.malformed "stateless-node-in-prev")
+def Sts.getSt (sts : Sts) (n : Name) : St := (sts.get n).getD default
 
 def Sts.set (sts : Sts) (n : Name) (s : Option St) : Sts :=
   match sts with
@@ -262,11 +261,13 @@ def ownTree (nd : Node) : OTree :=
   | .outer f g => some (.outer (.leaf (nd.name, f)) (.leaf (nd.name, g)))
   | .inner f g => some (.inner (.leaf (nd.name, f)) (.leaf (nd.name, g)))
 
+/-- Final splitters of the previous states, as they are now. -/
+def finalsOf (sts : Sts) (prev : List Name) : List OTree := prev.map fun u => (sts.getSt u).finalTree
+
 /-- The splitter setter: caches `prev_state_splitter_rpn` and `splitter_rpn` with the upstream finals as they are now. -/
-def setTrees (sts : Sts) (s : St) : M St := do
-  let finals ← s.prev.mapM fun u => do return (← sts.getSt u).finalTree
-  let prevPre := outerAll finals
-  return { s with prevPre := prevPre, fullPre := outerAll [prevPre, s.cur] }
+def setTrees (sts : Sts) (s : St) : St :=
+  let prevPre := outerAll (finalsOf sts s.prev)
+  { s with prevPre := prevPre, fullPre := outerAll [prevPre, s.cur] }
 
 def assocGet {β : Type} (l : List (Name × β)) (n : Name) : Option β :=
   match l with
@@ -293,9 +294,9 @@ structure UpInfo where
   prev : List Name
   deriving Inhabited
 
-def upInfo (sts : Sts) (u : Name) : M UpInfo := do
-  let su ← sts.getSt u
-  return { name := u, hasOther := !su.other.isEmpty, hasCur := su.cur.isSome, prev := su.prev }
+def upInfo (sts : Sts) (u : Name) : UpInfo :=
+  let su := sts.getSt u
+  { name := u, hasOther := !su.other.isEmpty, hasCur := su.cur.isSome, prev := su.prev }
 
 /-- `othst_w_currst`: previous states without connections of their own. -/
 def rootsOf (infos : List UpInfo) : List Name := (infos.filter fun i => !i.hasOther).map (·.name)
@@ -345,80 +346,100 @@ def historyCore (infos : List UpInfo) (other : Other) (prev : List Name) : M (Ot
 
 /-- `_add_state_history`: rewrites the list of previous states and the `other_states` dictionary. -/
 def addStateHistory (sts : Sts) (s : St) (prev : List Name) : M (St × List Name) := do
-  let infos ← prev.mapM (upInfo sts)
-  let (other, prev) ← historyCore infos s.other prev
+  let (other, prev) ← historyCore (prev.map (upInfo sts)) s.other prev
   return ({ s with other := other }, prev)
 
+/-- `_complete_prev_state(prev_state=…)` on an existing prev-state part (second pass): connected states with a final
+    splitter that are missing from it are put in front, last connected first; the flag records that some state was put in
+    front of a *list* (`[f"_{name}", prev_state]` is then nested). -/
+def addMissing (sts : Sts) : List (Name × List Fld) → List Name × Bool → List Name × Bool
+  | [], acc => acc
+  | (u, _) :: rest, (prev, nested) =>
+    if !(prev.contains u) && (sts.getSt u).finalTree.isSome then
+      addMissing sts rest (u :: prev, nested || decide (prev.length > 1))
+    else addMissing sts rest (prev, nested)
+
 /-- `update_connections(new_other_states)` → `_connect_splitters` → `_complete_prev_state`. -/
-def connect (sts : Sts) (s : St) (other : List (Name × List Fld)) : M St := do
+def connect (sts : Sts) (s : St) (other : List (Name × List Fld)) : M St :=
   let s := { s with other := other }
-  let mut prev0 := s.prev
-  let mut isList := true
-  if !s.prev.isEmpty then
-    -- a prev-state part exists (second pass): connected states that are missing from it are put in front
-    let mut nested := false
-    for (u, _) in other.reverse do
-      if !(prev0.contains u) && (← sts.getSt u).finalTree.isSome then
-        if prev0.length > 1 then nested := true     -- `[f"_{name}", prev_state]` with a list `prev_state`
-        prev0 := u :: prev0
-    isList := s.prev.length > 1 || prev0.length > s.prev.length
-    -- `_remove_repeated` evaluates `el[1:] not in self.other_states` with `el` a list: unhashable
-    if nested then throw (.crash .typeError)
+  if s.prev.isEmpty then do
+    -- no prev-state part yet (construction): all connected states, then the history rewriting
+    let (s, prev) ← addStateHistory sts s (other.map (·.1))
+    return setTrees sts { s with prev := prev }
   else
-    prev0 := other.map (·.1)
-  let (s, prev) ← if isList then addStateHistory sts s prev0 else pure (s, prev0)
-  setTrees sts { s with prev := prev }
+    let (prev0, nested) := addMissing sts other.reverse (s.prev, false)
+    -- `_remove_repeated` evaluates `el[1:] not in self.other_states` with `el` a list: unhashable
+    if nested then .error (.crash .typeError)
+    else if s.prev.length > 1 || prev0.length > s.prev.length then do
+      let (s, prev) ← addStateHistory sts s prev0
+      return setTrees sts { s with prev := prev }
+    else .ok (setTrees sts { s with prev := prev0 })
 
 def addField (other : List (Name × List Fld)) (u : Name) (f : Fld) : List (Name × List Fld) :=
   match other with
   | [] => [(u, [f])]
   | (m, fl) :: r => if m = u then (m, fl ++ [f]) :: r else (m, fl) :: addField r u f
 
+/-- `Node._get_upstream_states`: the connected upstream states with `depth() > 0`, with the fields they feed. -/
+def upsByDepth (sts : Sts) : List (Fld × Name) → Other → M Other
+  | [], acc => .ok acc
+  | (f, u) :: rest, acc =>
+    match sts.get u with
+    | none => upsByDepth sts rest acc
+    | some su =>
+      match su.fullPre with
+      | none => .error (.crash .assertionError)          -- `depth()` on an empty RPN
+      | some t => upsByDepth sts rest (if t.depth su.comb > 0 then addField acc u f else acc)
+
+/-- `Workflow._create_graph`'s criterion: the connected upstream states whose `splitter_rpn_final` is non-empty. -/
+def upsByFinal (sts : Sts) : List (Fld × Name) → Other → Other
+  | [], acc => acc
+  | (f, u) :: rest, acc =>
+    match sts.get u with
+    | none => upsByFinal sts rest acc
+    | some su => upsByFinal sts rest (if su.finalTree.isSome then addField acc u f else acc)
+
+/-- `Node._set_state` for one node. -/
+def constructNode (sts : Sts) (nd : Node) : M (Option St) := do
+  let other ← upsByDepth sts nd.lazyUps []
+  let cur := ownTree nd
+  if cur.isNone && nd.comb.isEmpty && other.isEmpty then return none
+  else
+    let s := setTrees sts { name := nd.name, cur := cur, comb := nd.comb, ownComb := nd.ownComb }
+    if other.isEmpty then return some s else return some (← connect sts s other)
+
 /-- `Node._get_upstream_states` + `Node._set_state`, for all nodes in construction order. -/
 def constructPass (sts : Sts) : List Node → M Sts
   | [] => .ok sts
   | nd :: rest => do
-    let mut other : List (Name × List Fld) := []
-    for (f, u) in nd.lazyUps do
-      match ← sts.get u with
-      | none => pure ()
-      | some su =>
-        match su.fullPre with
-        | none => throw (.crash .assertionError)          -- `depth()` on an empty RPN
-        | some t => if t.depth su.comb > 0 then other := addField other u f
-    let cur := ownTree nd
-    if cur.isNone && nd.comb.isEmpty && other.isEmpty then
-      constructPass (sts ++ [(nd.name, none)]) rest
-    else
-      let s : St := { name := nd.name, cur := cur, comb := nd.comb, ownComb := nd.ownComb }
-      let s ← setTrees sts s
-      let s ← if other.isEmpty then pure s else connect sts s other
-      constructPass (sts ++ [(nd.name, some s)]) rest
+    let s ← constructNode sts nd
+    constructPass (sts ++ [(nd.name, s)]) rest
+
+/-- `Workflow._create_graph` for one node: `none` = nothing to update. -/
+def graphNode (sts : Sts) (nd : Node) : M (Option St) :=
+  let other := upsByFinal sts nd.lazyUps []
+  if other.isEmpty then .ok none
+  else
+    match sts.get nd.name with
+    | none => .error (.crash .attributeError)            -- `NodeExecution.state` has no setter
+    | some s =>
+      -- a State built without other_states never ran `_connect_splitters`: no `_current_splitter_rpn`
+      if s.other.isEmpty then .error (.crash .attributeError)
+      else do return some (← connect sts s other)
 
 /-- `Workflow._create_graph`: recomputes `other_states` with the criterion `splitter_rpn_final` non-empty. -/
 def graphPass (sts : Sts) : List Node → M Sts
   | [] => .ok sts
   | nd :: rest => do
-    let mut other : List (Name × List Fld) := []
-    for (f, u) in nd.lazyUps do
-      match ← sts.get u with
-      | none => pure ()
-      | some su => if su.finalTree.isSome then other := addField other u f
-    if other.isEmpty then graphPass sts rest
-    else
-      match ← sts.get nd.name with
-      | none => throw (.crash .attributeError)            -- `NodeExecution.state` has no setter
-      | some s =>
-        -- a State built without other_states never ran `_connect_splitters`: no `_current_splitter_rpn`
-        if s.other.isEmpty then throw (.crash .attributeError)
-        let s ← connect sts s other
-        graphPass (sts.set nd.name (some s)) rest
+    match ← graphNode sts nd with
+    | none => graphPass sts rest
+    | some s => graphPass (sts.set nd.name (some s)) rest
 
 /-! ### Run time -/
 
 structure RunRes where
-  hasState : Bool
-  outs : List Val
+  hasState : Bool := false
+  outs : List Val := []
   statesInd : List (Dict Key) := []
   statesIndFinal : List (Dict Key) := []
   indFinal : List (List Nat) := []
@@ -428,10 +449,10 @@ structure RunRes where
 
 abbrev Ress := List (Name × RunRes)
 
-def Ress.get (rs : Ress) (n : Name) : M RunRes :=
+def Ress.get (rs : Ress) (n : Name) : RunRes :=
   match rs with
-  | [] => .error (.malformed "upstream-not-run")
-  | (m, r) :: rest => if m = n then .ok r else Ress.get rest n
+  | [] => {}
+  | (m, r) :: rest => if m = n then r else Ress.get rest n
 
 /-- `LazyOutField._get_value(state_index)`. -/
 def getValue (r : RunRes) (stateIndex : Option Nat) : M Val :=
@@ -491,26 +512,30 @@ def sizeOf (nodes : List Node) (k : Key) : Nat :=
   | [] => 0
   | nd :: rest => if nd.name = k.1 then nd.lstLen k.2 else sizeOf rest k
 
+/-- The loop of `_merge_previous_groups` over the previous states: combiner keys that reach into a previous state's final
+    splitter are closed over that state's groups. -/
+def mergePrev (sts : Sts) : List Name → List Key → M (List Key)
+  | [], acc => .ok acc
+  | u :: rest, acc => do
+    let ft := (sts.getSt u).finalTree
+    let stComb := (dedup acc).filter (oleaves ft).contains
+    if stComb.isEmpty then mergePrev sts rest acc
+    else mergePrev sts rest (acc ++ (← splitsGroups ft stComb))
+
 /-- `set_input_groups` (`_merge_previous_groups`, `splits_groups` of the current part, `_add_current_groups`):
     computes `*_combiner_all`; raises what the code raises. -/
 def setInputGroups (sts : Sts) (s : St) : M St := do
   let curComb := s.ownComb
   let prevComb := s.comb.filter fun c => !(s.ownComb.contains c)
-  let mut prevAll : List Key := []
-  if !s.other.isEmpty then
-    prevAll ← if prevComb.isEmpty then pure [] else splitsGroups s.prevPre prevComb
-    for u in s.prev do
-      let ft := (← sts.getSt u).finalTree
-      let stComb := (dedup prevAll).filter (oleaves ft).contains
-      if !stComb.isEmpty then
-        prevAll := prevAll ++ (← splitsGroups ft stComb)
-  else
-    prevAll := prevComb
+  let prevAll ←
+    if s.other.isEmpty then pure prevComb
+    else do
+      let p0 ← if prevComb.isEmpty then pure [] else splitsGroups s.prevPre prevComb
+      mergePrev sts s.prev p0
   let curAll ← splitsGroups s.cur curComb
-  prevAll := dedup prevAll
+  let prevAll := dedup prevAll
   -- keys of the previous states' final groups (as they are now, after those states have run) that are not combined
-  let finals ← s.prev.mapM fun u => do return (← sts.getSt u).finalTree
-  let left := (finals.flatMap oleaves).filter fun k => !(prevAll.contains k)
+  let left := ((finalsOf sts s.prev).flatMap oleaves).filter fun k => !(prevAll.contains k)
   -- `_add_current_groups`: max() over the (empty) previous groups
   if !s.prev.isEmpty && s.cur.isSome && left.isEmpty then throw (.crash .valueError)
   return { s with ran := true, curCombAll := curAll, prevCombAll := prevAll }
@@ -520,85 +545,98 @@ def resolveField (rs : Ress) (nd : Node) (f : Fld) (stateIndex : Option Nat) : M
   | .none => .ok .null
   | .const v => .ok v
   | .lst vs => .ok (.list vs)
-  | .up u => do getValue (← rs.get u) stateIndex
+  | .up u => getValue (rs.get u) stateIndex
 
-/-- `NodeExecution.start` for one node: `prepare_states`, `prepare_inputs`, `_split_task`. -/
-def runNode (nodes : List Node) (sts : Sts) (rs : Ress) (nd : Node) : M (Sts × RunRes) := do
-  match ← sts.get nd.name with
-  | none =>
+/-- The node's own enumeration (`State.splits` of the current splitter) with its keys. -/
+def ownEnum (size : Key → Nat) (cur : OTree) : M (Option (List (List Nat) × List Key)) :=
+  match cur with
+  | none => .ok none
+  | some t => do return some (← t.enum size)
+
+/-- `prepare_states_combined_ind`: the final enumeration, its keys and the final index dictionaries of a state with a
+    combiner (raises what the code raises). -/
+def combinedInd (size : Key → Nat) (sts : Sts) (s : St) (statesInd : List (Dict Key)) :
+    M (List (List Nat) × List Key) := do
+  let finals := finalsOf sts s.prev
+  -- splitter2rpn: a `_U` whose `splitter_final` is None inside a list
+  if s.prev.length + (if s.cur.isSome then 1 else 0) ≥ 2 && finals.any Option.isNone then
+    throw (.crash .pydraStateError)
+  let fullNow := outerAll (finals ++ [s.cur])
+  match fullNow.bind (Tree.remove (s.curCombAll ++ s.prevCombAll)) with
+  | some combined =>
+    let (e, k) ← combined.enum size
+    -- ind_map[tuple(st[k] for k in keys_final)]: a missing key or an unknown tuple is a KeyError
+    if statesInd.all fun sd => (k.map sd.get?).all Option.isSome && e.contains ((k.map sd.get?).map fun o => o.getD 0) then
+      return (e, k)
+    else throw (.crash .keyError)
+  | none => return ([], [])
+
+/-- One job's input for field `f`: the element of the split list, or the (routed) upstream value. -/
+def jobField (rs : Ress) (nd : Node) (idx sd : Dict Key) (f : Fld) : M Val :=
+  match sd.get? (nd.name, f) with
+  | some i =>
+    match nd.src f with
+    | .lst vs => match vs[i]? with
+      | some v => .ok v
+      | none => .error (.crash .indexError)
+    | _ => .error (.malformed "split-field-not-a-list")
+  | none => resolveField rs nd f (idx.get? (nd.name, f))
+
+def jobOut (rs : Ress) (nd : Node) (job : Dict Key × Dict Key) : M Val := do
+  return nd.encode (← jobField rs nd job.1 job.2 .x) (← jobField rs nd job.1 job.2 .y) (← jobField rs nd job.1 job.2 .z)
+
+/-- `NodeExecution.start` for a node with a state: `prepare_states`, `prepare_inputs`, `_split_task`. -/
+def runStateful (nodes : List Node) (sts : Sts) (rs : Ress) (nd : Node) (s : St) : M (Sts × RunRes) := do
+  let size := sizeOf nodes
+  let s ← setInputGroups sts s
+  let sts := sts.set nd.name (some s)
+  -- prepare_states_ind: product of the upstream final enumerations and the own enumeration
+  let rus := s.prev.map rs.get
+  let own ← ownEnum size s.cur
+  let blocks := rus.map (·.indFinal) ++ (match own with | some (e, _) => [e] | none => [])
+  let keys := rus.flatMap (·.keysFinal) ++ (match own with | some (_, k) => k | none => [])
+  let indL := (cart blocks).map flattenL
+  let statesInd := indL.map (mkDict keys)
+  let (indFinal, keysFinal, statesIndFinal) ←
+    if s.comb.isEmpty then pure (indL, keys, statesInd)
+    else do
+      let (e, k) ← combinedInd size sts s statesInd
+      pure (e, k, e.map (mkDict k))
+  -- prepare_inputs
+  let prevs := s.prev.map fun u => ((rs.get u).statesIndFinal.length, (assocGet s.other u).getD [])
+  let inputsInd := inputsIndOf nd.name prevs own
+  -- _split_task: zip(inputs_ind, states_val)
+  let outs ← (List.zip inputsInd statesInd).mapM (jobOut rs nd)
+  return (sts, { hasState := true, outs := outs, statesInd := statesInd, statesIndFinal := statesIndFinal,
+                 indFinal := indFinal, keysFinal := keysFinal, comb := !s.comb.isEmpty })
+
+/-- `NodeExecution.start` for one node. -/
+def runNode (nodes : List Node) (sts : Sts) (rs : Ress) (nd : Node) : M (Sts × RunRes) :=
+  match sts.get nd.name with
+  | none => do
     let vx ← resolveField rs nd .x none
     let vy ← resolveField rs nd .y none
     let vz ← resolveField rs nd .z none
     return (sts, { hasState := false, outs := [nd.encode vx vy vz] })
-  | some s =>
-    let size := sizeOf nodes
-    let s ← setInputGroups sts s
-    let sts := sts.set nd.name (some s)
-    -- prepare_states_ind: product of the upstream final enumerations and the own enumeration
-    let mut blocks : List (List (List Nat)) := []
-    let mut keys : List Key := []
-    for u in s.prev do
-      let ru ← rs.get u
-      blocks := blocks ++ [ru.indFinal]
-      keys := keys ++ ru.keysFinal
-    let own ← match s.cur with
-      | none => pure none
-      | some t => do pure (some (← t.enum size))
-    match own with
-    | some (e, k) =>
-      blocks := blocks ++ [e]
-      keys := keys ++ k
-    | none => pure ()
-    let indL := (cart blocks).map flattenL
-    let statesInd := indL.map (mkDict keys)
-    -- combiner
-    let mut indFinal := indL
-    let mut keysFinal := keys
-    let mut statesIndFinal := statesInd
-    if !s.comb.isEmpty then
-      let finals ← s.prev.mapM fun u => do return (← sts.getSt u).finalTree
-      -- splitter2rpn: a `_U` whose `splitter_final` is None inside a list
-      if s.prev.length + (if s.cur.isSome then 1 else 0) ≥ 2 && finals.any Option.isNone then
-        throw (.crash .pydraStateError)
-      let fullNow := outerAll (finals ++ [s.cur])
-      match fullNow.bind (Tree.remove (s.curCombAll ++ s.prevCombAll)) with
-      | some combined =>
-        let (e, k) ← combined.enum size
-        indFinal := e
-        keysFinal := k
-        for sd in statesInd do
-          let t := k.map sd.get?
-          if t.any Option.isNone then throw (.crash .keyError)
-          if !(e.contains (t.map fun o => o.getD 0)) then throw (.crash .keyError)
-      | none =>
-        indFinal := []
-        keysFinal := []
-      statesIndFinal := indFinal.map (mkDict keysFinal)
-    -- prepare_inputs
-    let prevs ← s.prev.mapM fun u => do
-      return ((← rs.get u).statesIndFinal.length, (assocGet s.other u).getD [])
-    let inputsInd := inputsIndOf nd.name prevs own
-    -- _split_task: zip(inputs_ind, states_val)
-    let jobs := List.zipWith (fun a b => (a, b)) inputsInd statesInd
-    let outs ← jobs.mapM fun (idx, sd) => do
-      let val (f : Fld) : M Val :=
-        match sd.get? (nd.name, f) with
-        | some i =>
-          match nd.src f with
-          | .lst vs => match vs[i]? with
-            | some v => pure v
-            | none => throw (.crash .indexError)
-          | _ => throw (.malformed "split-field-not-a-list")
-        | none => resolveField rs nd f (idx.get? (nd.name, f))
-      return nd.encode (← val .x) (← val .y) (← val .z)
-    return (sts, { hasState := true, outs := outs, statesInd := statesInd, statesIndFinal := statesIndFinal,
-                   indFinal := indFinal, keysFinal := keysFinal, comb := !s.comb.isEmpty })
+  | some s => runStateful nodes sts rs nd s
 
-def runNodes (nodes : List Node) (sts : Sts) (rs : Ress) : List Node → M Ress
-  | [] => .ok rs
-  | nd :: rest => do
-    let (sts, r) ← runNode nodes sts rs nd
-    runNodes nodes sts (rs ++ [(nd.name, r)]) rest
+/-- Every node's outcome, computed in construction order: its result, or the exception its start raises; a node behind a
+    failed one is never started (`blocked`).  State objects and results are threaded through the nodes that did start. -/
+structure Outcomes where
+  sts : Sts
+  rs : Ress := []
+  failed : List (Name × Err) := []     -- nodes whose start raised, with the exception
+  blocked : List Name := []            -- nodes that could not start
+
+def runAll (nodes : List Node) : List Node → Outcomes → Outcomes
+  | [], o => o
+  | nd :: rest, o =>
+    if nd.lazyUps.any fun (_, u) => (o.failed.any fun e => e.1 == u) || o.blocked.contains u then
+      runAll nodes rest { o with blocked := o.blocked ++ [nd.name] }
+    else
+      match runNode nodes o.sts o.rs nd with
+      | .ok (sts, r) => runAll nodes rest { o with sts := sts, rs := o.rs ++ [(nd.name, r)] }
+      | .error e => runAll nodes rest { o with failed := o.failed ++ [(nd.name, e)] }
 
 structure Result where
   outs : List Val
@@ -619,11 +657,23 @@ def startOrder (nodes : List Node) : List Node :=
   let lv := levels nodes
   (List.range (nodes.length + 1)).flatMap fun l => nodes.filter fun nd => (assocGet lv nd.name).getD 0 == l
 
+/-- The exception that surfaces: that of the first node, in start order, whose start raised. -/
+def firstFailure (order : List Node) (failed : List (Name × Err)) : Option Err :=
+  match order with
+  | [] => none
+  | nd :: rest =>
+    match assocGet failed nd.name with
+    | some e => some e
+    | none => firstFailure rest failed
+
 def run (w : Wf) : M Result := do
   let sts ← constructPass [] w.nodes
   let sts ← graphPass sts w.nodes
-  let rs ← runNodes w.nodes sts [] (startOrder w.nodes)
-  let outs ← w.outs.mapM fun o => do getValue (← rs.get o) none
-  return { outs := outs, jobs := rs.map fun (n, r) => (n, r.outs.length), jobOuts := rs.map fun (n, r) => (n, r.outs) }
+  let o := runAll w.nodes w.nodes { sts := sts }
+  match firstFailure (startOrder w.nodes) o.failed with
+  | some e => throw e
+  | none =>
+    let outs ← w.outs.mapM fun n => getValue (o.rs.get n) none
+    return { outs := outs, jobs := o.rs.map fun (n, r) => (n, r.outs.length), jobOuts := o.rs.map fun (n, r) => (n, r.outs) }
 
 end PydraModel.WfState.Model
